@@ -43,13 +43,13 @@ def mkpipe(d, with_stages=True):
     return ProcessingPipeline.from_dict(def_dict(d, with_stages))
 
 
-def backend_with(cls_pipe=None, fmt_pipe=None):
+def backend_with(cls_pipe=None, fmt_pipe=None, fmt_name="test"):
     from sigma.backends.test import TextQueryTestBackend
     from sigma.processing.pipeline import ProcessingPipeline
 
     attrs = {
         "backend_processing_pipeline": cls_pipe or ProcessingPipeline(),
-        "output_format_processing_pipeline": defaultdict(ProcessingPipeline, test=fmt_pipe or ProcessingPipeline()),
+        "output_format_processing_pipeline": defaultdict(ProcessingPipeline, **{fmt_name: fmt_pipe or ProcessingPipeline()}),
     }
     return type("ComposeBackend", (TextQueryTestBackend,), attrs)
 
@@ -121,6 +121,10 @@ def drive_case(case):
         elif op == "backend":
             b = backend_with(pipes[0], pipes[2])(pipes[1])
             fmt = "test"
+            composed = None
+        elif op == "backend_default":  # the format pipeline belongs to the DEFAULT format, which the caller does not name
+            b = backend_with(pipes[0], pipes[2], "default")(pipes[1])
+            fmt = None
             composed = None
         elif op == "backend_switch":
             b = backend_with(pipes[0], pipes[2])(pipes[1])
